@@ -514,6 +514,31 @@ def run(ctx) -> None:
     ok = bool(pc) and len(pc[0].args) >= 2 and source.src(pc[0].args[1]) == "self._concrete"
     ctx.ob("C07.R6-patch-before-store", pc[0] if pc else init, ok, "the variables are patched into the description that is then copied" if ok else
            "_patch_in_variable_files is applied to something other than self._concrete")
+    # the number of replicas is read from the flattened description that is then stored, not from the live multi-platform layering
+    rep = fl.func("FlowIRConcrete.replicate")
+    ctx.analysed(rep)
+    inst_names = set(match.locals_where(rep, lambda v: isinstance(v, ast.Call) and last_attr(v) == "instance"))
+    ar = [c for c in source.calls_in(rep) if last_attr(c) == "apply_replicate"]
+    ctx.require(bool(ar) and bool(inst_names), "anchor missing: <local> = self.instance(..) / apply_replicate(..) in FlowIRConcrete.replicate")
+    for c in ar:
+        def root_of(e: ast.AST, depth: int = 0):
+            while isinstance(e, ast.Subscript):
+                e = e.value
+            if isinstance(e, ast.Name) and e.id not in inst_names and depth < 4:
+                vals = match.assigned_value(rep, e.id)
+                if len(vals) == 1:
+                    return root_of(vals[0], depth + 1)
+            return e
+        r0 = root_of(c.args[0]) if c.args else None
+        r1 = root_of(c.args[1]) if len(c.args) > 1 else None
+        ok = isinstance(r0, ast.Name) and isinstance(r1, ast.Name) and r0.id == r1.id and r0.id in inst_names
+        ctx.ob("C07.R7-flattening-keeps-scope-precedence", c, ok,
+               "the replica counts are read from the variables of the flattened description whose components are replicated" if ok else
+               "replicate() takes the variables that decide the number of replicas from %s instead of the flattened description it replicates and "
+               "stores: the writer counts replicas with the live default+platform layering, the reload with the baked values of "
+               "flowir_instance.yaml - when 'replicate' is reached through another variable that a narrower scope overrides, the two "
+               "experiments have different sets of components" % (short(c.args[1], 50) if len(c.args) > 1 else "nothing"),
+               construct="replicate: apply_replicate(<instance components>, <instance variables>, ..)")
     from checks.c04 import check_user_layer_every_platform, check_layers_unconditional, option_layer_names
     gcc_ = fl.func("FlowIRConcrete.get_component_configuration")
     ctx.analysed(gcc_)
